@@ -33,7 +33,11 @@
    variables.
 
    Simplifications (stated, not hidden):
-   * the FilterFunc of the DiskWriter is NOT modelled here (filter = nil; Model/Diff.v has it);
+   * the FilterFunc of the DiskWriter (DiskWriterOpt.Filter = ReceiveOpt.Filter) is modelled by
+     the [_f] variants at the end of this file ([receive_abs_f]): the writer works on a COPY of
+     the stat that the filter has rewritten (metadata on disk, link and symlink targets, device
+     numbers), the notification and the hashed header keep the stat as sent; everything above
+     is the case filter = nil;
    * file contents complete in HandleChange order: the model emits the notification of a
      regular file at the position of its HandleChange call; the real one is emitted by a
      goroutine when the content has arrived (any later position) — see
@@ -399,3 +403,88 @@ Definition dest_listing (B : list entry) (D : dmap) : list entry :=
                 | Some x => (set_path (de_stat x) (st_path (fst e)), de_bytes x)
                 | None => e
                 end) B.
+
+(* ------------------------------------------------------------------------------------------
+   The receiver's Filter (ReceiveOpt.Filter, handed to BOTH doubleWalkDiff and the DiskWriter).
+   [wf p st] = (result, the stat as the FilterFunc leaves its copy).
+   HandleChange:  statCopy := stat.Clone(); if !filter(p, statCopy) { return nil }   — skipped:
+   nothing written, nothing notified; for a delete the filter sees an empty stat and only its
+   result counts.  Everything that reaches the disk comes from statCopy (rewriteMetadata,
+   symlink / hard-link target, device numbers, the chmod/chtimes after the content); the
+   notification (processChange(kind, p, fi, ...)) and the header given to the ContentHasher
+   come from fi: the stat AS SENT.  The type switch looks at fi's mode and statCopy's Linkname:
+   the model switches on statCopy — exact for filters that keep the type bits ([filter_ok]).
+   doubleWalkDiff compares the old entry with the filtered copy of the new one (boolean result
+   ignored) and hands the entry as sent to HandleChange: Diff.diff (filter_stat wf). *)
+Definition empty_stat : stat :=
+  {| st_path := []; st_mode := 0; st_uid := 0; st_gid := 0; st_size := 0; st_mtime := 0;
+     st_linkname := []; st_devmajor := 0; st_devminor := 0; st_xattrs := [] |}.
+
+Section Filtered.
+Variable wf : bytes -> stat -> bool * stat.
+
+Definition filter_stat (s : stat) : stat := snd (wf (st_path s) s).
+
+(* the change as the writer executes it; None = skipped *)
+Definition filter_change (c : change) : option change :=
+  match c with
+  | (KDelete, p, _) => if fst (wf p empty_stat) then Some c else None
+  | (k, p, Some st) => if fst (wf p st) then Some (k, p, Some (snd (wf p st))) else None
+  | (_, _, None) => Some c                  (* "change without stat info": error before the filter *)
+  end.
+
+Variable src : bytes -> bytes.
+
+(* as apply_all; the third component lists the changes AS RECEIVED that were executed *)
+Fixpoint apply_all_f (cs : list change) (D : dmap) (next : N) : dmap * N * list change * bool :=
+  match cs with
+  | [] => (D, next, [], false)
+  | c :: r =>
+    match filter_change c with
+    | None => apply_all_f r D next
+    | Some c' =>
+      match apply_map src D next c' with
+      | None => (D, next, [], true)
+      | Some (D', next') =>
+        let '(D2, n2, done, e) := apply_all_f r D' next' in (D2, n2, c :: done, e)
+      end
+    end
+  end.
+
+Definition req_of_f (c : change) : option bytes :=
+  match filter_change c with Some c' => req_of c' | None => None end.
+End Filtered.
+
+Section ReceiveF.
+Variable wf : bytes -> stat -> bool * stat.
+Variable H : bytes -> bytes.
+Variable hdr : stat -> bytes.
+
+Definition receive_abs_f (m : rmode) (d : differ) (A B : list entry) : dstate :=
+  let LA := match m with Fresh => map fst A | Merge => [] end in
+  let cs := diff (filter_stat wf) d LA (map fst B) in
+  let '(D, _, done, e) := apply_all_f wf (src_of B) cs (dest_of A) (N.of_nat (length A)) in
+  {| ds_map := D; ds_reqs := filter_map (req_of_f wf) done;
+     ds_notifs := map (notif_of (src_of B) H hdr) done; ds_changes := done; ds_err := e |}.
+End ReceiveF.
+
+(* the source as the writer sees it: every stat rewritten by the filter *)
+Definition filter_entries (wf : bytes -> stat -> bool * stat) (B : list entry) : list entry :=
+  map (fun e => (filter_stat wf (fst e), snd e)) B.
+
+(* a filter that never says "skip" and keeps path, type bits and link name (what the umask-,
+   ownership- and timestamp-normalising filters of the callers do) *)
+Definition filter_ok (wf : bytes -> stat -> bool * stat) : Prop :=
+  forall p s, fst (wf p s) = true /\
+    (p = st_path s ->
+     st_path (snd (wf p s)) = st_path s /\ st_is_dir (snd (wf p s)) = st_is_dir s /\
+     is_special (snd (wf p s)) = is_special s /\
+     mode_is_symlink (st_mode (snd (wf p s))) = mode_is_symlink (st_mode s) /\
+     st_linkname (snd (wf p s)) = st_linkname s).
+
+(* every hard-link change applied announces — after the filter — what the new name then shows *)
+Definition recv_honest_f_by (eqb : stat -> stat -> bool) (wf : bytes -> stat -> bool * stat)
+    (m : rmode) (d : differ) (A B : list entry) : bool :=
+  let LA := match m with Fresh => map fst A | Merge => [] end in
+  honest_run_by (src_of B) eqb
+    (filter_map (filter_change wf) (diff (filter_stat wf) d LA (map fst B))) (dest_of A) (N.of_nat (length A)).
